@@ -213,6 +213,19 @@ def run(ctx):
         rhs = qx.from_np(utils.quat_matmat(utils.quat_hermitian(Bn), utils.quat_hermitian(An)))
         if not qx.eq(lhs, rhs): viol('C01:herm:reverses', '(AB)^H != B^H A^H', A, B, lhs, rhs)
         if not qx.eq(qx.from_np(utils.quat_hermitian(utils.quat_hermitian(An))), A): viol('C01:herm:involution', '(A^H)^H != A', A, None, '', '')
+        # the same law in sparse storage, dimensions included: a sparse result must REPORT the shape of the matrix it holds (.shape feeds the shape of
+        # every later product), and (A B)^H and B^H A^H must be the same k x m ... n x m matrix
+        Bs = mk_sparse(utils, B); Hs_ = utils.quat_hermitian(As); HBs = utils.quat_hermitian(Bs)
+        def _shape_ok(S, want):
+            return tuple(S.shape) == tuple(want) and all(tuple(c.shape) == tuple(want) for c in (S.real, S.i, S.j, S.k))
+        if not _shape_ok(Hs_, (k, m)): viol('C01:herm:sparse:shape', f'the sparse conjugate transpose of a {m} x {k} matrix reports shape {tuple(Hs_.shape)} and holds components of shape {tuple(Hs_.real.shape)} (expected {(k, m)})', A, None, tuple(Hs_.shape), (k, m))
+        try:
+            L_ = utils.quat_hermitian(utils.quat_matmat(As, Bs)); R_ = utils.quat_matmat(HBs, Hs_)
+            if not (_shape_ok(L_, (n, m)) and _shape_ok(R_, (n, m))): viol('C01:herm:sparse:reverses:shape', f'(A B)^H reports shape {tuple(L_.shape)} and B^H A^H reports shape {tuple(R_.shape)} in sparse storage (expected {(n, m)})', A, B, (tuple(L_.shape), tuple(R_.shape)), (n, m))
+            elif not qx.eq(sparse_to_exact(L_), sparse_to_exact(R_)): viol('C01:herm:sparse:reverses', '(AB)^H != B^H A^H in sparse storage', A, B, '', '')
+            G_ = utils.quat_matmat(Hs_, As)
+            if not _shape_ok(G_, (k, k)): viol('C01:herm:sparse:gram:shape', f'A^H A reports shape {tuple(G_.shape)} in sparse storage (expected {(k, k)})', A, None, tuple(G_.shape), (k, k))
+        except Exception as e: viol('C01:herm:sparse:reverses:raises', f'sparse (AB)^H / B^H A^H raised {e!r}', A, B, repr(e), '')
         # Frobenius: exact on integers (radicand), identical across storage, invariant under ^H and unitary factors
         f2 = qx.frob2(A)
         fd = float(utils.quat_frobenius_norm(An)); fs = float(utils.quat_frobenius_norm(As))
